@@ -565,6 +565,7 @@ where
     pub fn abort_handle(&self) -> AbortHandle {
         AbortHandle {
             aborted: self.aborted.clone(),
+            waker: self.waker.clone(),
         }
     }
 }
